@@ -1,14 +1,319 @@
-//! C05 — stub, to be implemented.
+//! C05 — a configuration survives every save / replay path unchanged.
+//!
+//! modelsim tier on `ConfigState`: along a seeded command history (cfggen) snapshots of the reachable state
+//! are pushed through the four encodings in use and replayed on an empty instance:
+//!   P1 `produce_initial_state()` (public wrapper of `generate_requests`) -> dispatch;
+//!   P2 `write_requests_to_file` -> real file -> the `\n\0` JSON reader (`parser::parse_several_requests`
+//!      driven by a copy of bin's private `load_state` loop over the real fixed `Buffer`) -> dispatch;
+//!   P3 `write_initial_state_to_file` (protobuf) -> real file -> `read_initial_state_from_file` -> dispatch;
+//!   P4 `sozu::command::upgrade::UpgradeData{state,..}` -> serde_json -> file -> `from_str` -> `.state`
+//!      (what `CommandHub::from_upgrade_data` installs verbatim).
+//! Encoding happens on one thread under one hash seed, decoding / replay on another thread under another
+//! seed, so that a dependence on `HashMap` iteration order shows up and replays.
+//!
+//! Oracle (metamorphic, no model of the handlers needed): replay reports no error, and every map of the
+//! replayed `ConfigState` equals the snapshot (explicit map-by-map comparison, `request_counts` excluded,
+//! empty buckets normalised, order inside a bucket ignored).
 #![allow(dead_code)]
-use serde_json::Value;
+use std::collections::{BTreeMap, BTreeSet};
+use std::io::Read;
+use std::path::PathBuf;
+
+use serde_json::{json, Value};
+use sozu_command_lib::buffer::fixed::Buffer;
+use sozu_command_lib::parser::parse_several_requests;
+use sozu_command_lib::proto::command::{InitialState, Request, WorkerRequest};
+use sozu_command_lib::request::read_initial_state_from_file;
+use sozu_command_lib::state::ConfigState;
+
+use super::c07::err_name;
+use super::cfggen::{self, delta_sig_fields, state_delta, GenOpts};
 use crate::framework::*;
+use crate::prng::{Prng, TraceHash};
+use crate::world::{SchedCfg, World};
 
 pub struct C05;
 
+pub fn scratch_dir(tag: &str) -> PathBuf {
+    static N: std::sync::atomic::AtomicU64 = std::sync::atomic::AtomicU64::new(0);
+    let n = N.fetch_add(1, std::sync::atomic::Ordering::SeqCst);
+    let d = verif_root().join("sim/target/tmp").join(format!("{tag}-{}-{n}", std::process::id()));
+    let _ = std::fs::create_dir_all(&d);
+    d
+}
+
+pub fn generate(seed: u64, tier: Tier) -> Value {
+    let mut rng = Prng::derive(seed, "c05/plan");
+    let mut o = GenOpts::swarm(&mut rng);
+    o.symbolic_certs = true;
+    let fam = match rng.below(8) {
+        0 => { o.big_text_pm = 400; o.weights.insert(cfggen::Verb::AddCluster, 30); "big_records" }
+        1 => { o.opt_pm = 800; "all_optionals" }
+        2 => { o.opt_pm = 0; "no_optionals" }
+        3 => { for v in [cfggen::Verb::AddCertificate, cfggen::Verb::ReplaceCertificate, cfggen::Verb::RemoveCertificate] { o.weights.insert(v, 25); } "certificate_heavy" }
+        _ => "swarm",
+    };
+    let max = match tier { Tier::Quick => 40, Tier::Thorough => 150 };
+    let len = *rng.pick(&[5usize, 10, 20, max]);
+    let ops = cfggen::gen_history(&mut rng, len, &o);
+    // snapshots: the final state always, plus up to two interior points
+    let mut snaps: BTreeSet<usize> = BTreeSet::new();
+    snaps.insert(len);
+    for _ in 0..rng.below(3) { snaps.insert(1 + rng.below(len as u64) as usize); }
+    // real files (fsync on disk) are ~20x slower than anonymous in-memory files: sample them
+    let real_files = rng.chance(1, 10);
+    json!({"seed": seed, "family": fam, "real_files": real_files, "enc_seed": rng.next_u64(), "dec_seed": rng.next_u64(), "snaps": snaps.into_iter().collect::<Vec<_>>(), "ops": cfggen::ops_to_value(&ops)})
+}
+
+struct Snap {
+    at: usize,
+    state: ConfigState,
+    initial: InitialState,
+    json_file: Result<(std::fs::File, usize), String>,
+    pb_file: Result<(std::fs::File, usize), String>,
+    upgrade_file: Result<std::fs::File, String>,
+}
+
+/// A file to write into: a real file under the scratch directory, or an anonymous in-memory file (memfd).
+fn new_file(dir: &std::path::Path, name: &str, real: bool) -> Result<std::fs::File, String> {
+    if real {
+        std::fs::OpenOptions::new().read(true).write(true).create(true).truncate(true).open(dir.join(name)).map_err(|e| e.to_string())
+    } else {
+        use std::os::fd::FromRawFd;
+        let fd = unsafe { libc::memfd_create(c"simk-c05".as_ptr(), libc::MFD_CLOEXEC) };
+        if fd < 0 { return Err("memfd_create failed".into()); }
+        Ok(unsafe { std::fs::File::from_raw_fd(fd) })
+    }
+}
+fn rewind(mut f: std::fs::File) -> Result<std::fs::File, String> {
+    use std::io::Seek;
+    f.rewind().map_err(|e| e.to_string())?;
+    Ok(f)
+}
+
+fn encode(ops: Vec<Request>, snaps: Vec<usize>, seed: u64, dir: PathBuf, real: bool) -> (Vec<Snap>, Vec<bool>) {
+    crate::netsim::on_fresh_thread(move || {
+        let mut w = World::new(seed, SchedCfg::default());
+        World::install(&mut w);
+        let mut state = ConfigState::new();
+        let mut out = Vec::new();
+        let mut acc = Vec::new();
+        let config = sozu_command_lib::config::Config::default();
+        for (i, r) in ops.iter().enumerate() {
+            acc.push(state.dispatch(r).is_ok());
+            if snaps.contains(&(i + 1)) {
+                let snapshot = state.clone();
+                let initial = snapshot.produce_initial_state();
+                let json_file = new_file(&dir, &format!("state-{i}.json"), real).and_then(|mut f| { let n = snapshot.write_requests_to_file(&mut f).map_err(|e| e.to_string())?; Ok((rewind(f)?, n)) });
+                let pb_file = new_file(&dir, &format!("initial-{i}.pb"), real).and_then(|mut f| { let n = snapshot.write_initial_state_to_file(&mut f).map_err(|e| e.to_string())?; Ok((rewind(f)?, n)) });
+                let data = sozu::command::upgrade::UpgradeData { command_socket_fd: -1, config: config.clone(), next_client_id: 1, next_session_id: 2, next_task_id: 3, next_worker_id: 4, workers: vec![], state: snapshot.clone(), boot_generation: 0 };
+                // as bin/src/upgrade.rs: serialize to a string, write it to a file, rewind, hand the descriptor over
+                let upgrade_file = serde_json::to_string(&data).map_err(|e| format!("serialize: {e}")).and_then(|s| { use std::io::Write; let mut f = new_file(&dir, &format!("upgrade-{i}.json"), real)?; f.write_all(s.as_bytes()).map_err(|e| e.to_string())?; rewind(f) });
+                out.push(Snap { at: i + 1, state: snapshot, initial, json_file, pb_file, upgrade_file });
+            }
+        }
+        World::uninstall();
+        (out, acc)
+    })
+}
+
+/// Copy of the reading loop of bin's (private) `command::requests::load_state`, over the real `Buffer` and the
+/// real parser; returns the parsed requests or the error message `load_state` would report.
+pub fn read_state_file(file: &mut std::fs::File) -> Result<Vec<WorkerRequest>, String> {
+    let mut buffer = Buffer::with_capacity(200000);
+    let mut all = Vec::new();
+    loop {
+        let previous = buffer.available_data();
+        match file.read(buffer.space()) {
+            Ok(n) => { buffer.fill(n); }
+            Err(e) => return Err(format!("Error reading the saved state file: {e}")),
+        }
+        if buffer.available_data() == 0 { return Ok(all); }
+        let mut offset = 0usize;
+        match parse_several_requests::<WorkerRequest>(buffer.data()) {
+            Ok((rest, requests)) => {
+                if !rest.is_empty() && previous == buffer.available_data() { return Err("Error consuming load state message".into()); }
+                offset = buffer.data().len() - rest.len();
+                all.extend(requests);
+            }
+            Err(e) if e.is_incomplete() => {
+                if buffer.available_data() == buffer.capacity() { return Err("message too big, stopping parsing".into()); }
+            }
+            Err(e) => return Err(format!("saved state parse error: {e:?}")),
+        }
+        buffer.consume(offset);
+    }
+}
+
+#[derive(Default)]
+struct Findings {
+    /// (class, key base) -> (paths, first detail)
+    by_key: BTreeMap<(String, String), (BTreeSet<&'static str>, String)>,
+    compared: BTreeMap<&'static str, u64>,
+}
+impl Findings {
+    fn add(&mut self, class: &str, key: String, path: &'static str, detail: String) {
+        let e = self.by_key.entry((class.to_string(), key)).or_insert_with(|| (BTreeSet::new(), detail));
+        e.0.insert(path);
+    }
+}
+
+fn replay(reqs: impl Iterator<Item = Request>, path: &'static str, snap: &Snap, f: &mut Findings, th: &mut TraceHash) -> ConfigState {
+    let mut s = ConfigState::new();
+    for (n, r) in reqs.enumerate() {
+        if let Err(e) = s.dispatch(&r) {
+            th.mix(0xE0 + n as u64);
+            f.add("replay_rejected", format!("{}|{}", cfggen::verb_name(&r), err_name(&e)), path, format!("snapshot after op #{}: replayed request #{n} ({}) was rejected: {e}", snap.at, cfggen::verb_name(&r)));
+        }
+    }
+    s
+}
+
+fn compare(orig: &ConfigState, got: &ConfigState, path: &'static str, snap: &Snap, f: &mut Findings, th: &mut TraceHash) {
+    *f.compared.entry(path).or_insert(0) += 1;
+    let d = state_delta(orig, got, false);
+    th.mix(d.len() as u64);
+    // one finding per kind of difference (keys stay stable when several causes meet in one run)
+    let mut seen: BTreeSet<String> = BTreeSet::new();
+    for x in &d {
+        if seen.insert(x.sig_fields()) {
+            f.add("roundtrip_mismatch", x.sig_fields(), path, format!("snapshot after op #{}: replayed configuration differs from the snapshot: {} ({} differences in all: {})", snap.at, x.describe(), d.len(), delta_sig_fields(&d)));
+        }
+    }
+}
+
+struct Out { violations: Vec<Violation>, hash: u64, probes: BTreeMap<String, u64>, nontrivial: bool, herr: Option<String> }
+
+fn run(ops: Vec<Request>, snaps: Vec<usize>, enc_seed: u64, dec_seed: u64, real: bool) -> Out {
+    let dir = scratch_dir("c05");
+    let (mut snapshots, acc) = encode(ops, snaps, enc_seed, dir.clone(), real);
+    let out = crate::netsim::on_fresh_thread(move || {
+        let mut w = World::new(dec_seed, SchedCfg::default());
+        World::install(&mut w);
+        let mut th = TraceHash::new();
+        let mut f = Findings::default();
+        let mut probes: BTreeMap<String, u64> = BTreeMap::new();
+        let mut herr = None;
+        let mut nontrivial = false;
+        for a in &acc { th.mix(*a as u64); }
+        probes.insert("ops_accepted".into(), acc.iter().filter(|a| **a).count() as u64);
+        if real { *probes.entry("runs_with_real_files".into()).or_insert(0) += 1; }
+        for snap in snapshots.iter_mut() {
+            let (mut jf, mut pf, mut uf) = (std::mem::replace(&mut snap.json_file, Err(String::new())), std::mem::replace(&mut snap.pb_file, Err(String::new())), std::mem::replace(&mut snap.upgrade_file, Err(String::new())));
+            let snap = &*snap;
+            cfggen::state_hash(&snap.state, &mut th);
+            let objects = cfggen::count_objects(&snap.state);
+            *probes.entry("snapshots".into()).or_insert(0) += 1;
+            *probes.entry("objects_round_tripped".into()).or_insert(0) += objects as u64;
+            if !snap.state.certificates.is_empty() { *probes.entry("snapshots_with_certificates".into()).or_insert(0) += 1; }
+            if snap.state.tcp_fronts.len() + snap.state.udp_fronts.len() > 1 { *probes.entry("snapshots_with_several_hashmap_buckets".into()).or_insert(0) += 1; }
+            th.mix(snap.initial.requests.len() as u64);
+            // P1 in-memory requests
+            let s1 = replay(snap.initial.requests.iter().map(|r| r.content.clone()), "requests", snap, &mut f, &mut th);
+            compare(&snap.state, &s1, "requests", snap, &mut f, &mut th);
+            // P2 JSON state file
+            match &mut jf {
+                Err(e) => f.add("encode_failed", format!("state_file|{}", e.chars().take(40).collect::<String>()), "state_file", e.clone()),
+                Ok((p, n)) => {
+                    let size = p.metadata().map(|m| m.len()).unwrap_or(0);
+                    if size > 200_000 { *probes.entry("state_files_larger_than_reader_buffer".into()).or_insert(0) += 1; }
+                    match read_state_file(p) {
+                        Err(e) => {
+                            // plan-side trigger: one record larger than the reader's fixed buffer
+                            let biggest = snap.initial.requests.iter().map(|r| serde_json::to_string(r).map(|s| s.len()).unwrap_or(0)).max().unwrap_or(0);
+                            let trig = if biggest + 2 > 200_000 { "record_larger_than_reader_buffer" } else if biggest + 2 > 100_000 { "record_larger_than_half_reader_buffer" } else { "other" };
+                            f.add("decode_failed", format!("state_file|{}|{trig}", e.split(':').next().unwrap_or("").chars().take(48).collect::<String>()), "state_file", format!("snapshot after op #{}: the saved state file ({size} bytes, largest record {biggest} bytes) cannot be read back: {e}", snap.at));
+                        }
+                        Ok(reqs) => {
+                            if reqs.len() != *n { f.add("roundtrip_mismatch", "state_file_record_count".into(), "state_file", format!("wrote {n} records, read {}", reqs.len())); }
+                            th.mix(reqs.len() as u64);
+                            let s2 = replay(reqs.into_iter().map(|r| r.content), "state_file", snap, &mut f, &mut th);
+                            compare(&snap.state, &s2, "state_file", snap, &mut f, &mut th);
+                        }
+                    }
+                }
+            }
+            // P3 protobuf bootstrap blob
+            match &mut pf {
+                Err(e) => f.add("encode_failed", format!("initial_state|{}", e.chars().take(40).collect::<String>()), "initial_state", e.clone()),
+                Ok((p, n)) => match read_initial_state_from_file(p).map_err(|e| e.to_string()) {
+                    Err(e) => f.add("decode_failed", format!("initial_state|{}", e.chars().take(40).collect::<String>()), "initial_state", e),
+                    Ok(init) => {
+                        if init.requests.len() != *n { f.add("roundtrip_mismatch", "initial_state_record_count".into(), "initial_state", format!("wrote {n} records, read {}", init.requests.len())); }
+                        let s3 = replay(init.requests.into_iter().map(|r| r.content), "initial_state", snap, &mut f, &mut th);
+                        compare(&snap.state, &s3, "initial_state", snap, &mut f, &mut th);
+                    }
+                },
+            }
+            // P4 upgrade payload
+            match &mut uf {
+                Err(e) => f.add("encode_failed", format!("upgrade|{}", e.chars().take(60).collect::<String>()), "upgrade", e.clone()),
+                Ok(p) => match { let mut s = String::new(); p.read_to_string(&mut s).map_err(|e| e.to_string()).map(|_| s) }.and_then(|s| serde_json::from_str::<sozu::command::upgrade::UpgradeData>(&s).map_err(|e| e.to_string())) {
+                    Err(e) => f.add("decode_failed", format!("upgrade|{}", e.split(" at line").next().unwrap_or("").chars().take(60).collect::<String>()), "upgrade", format!("snapshot after op #{}: upgrade payload does not deserialize: {e}", snap.at)),
+                    Ok(data) => {
+                        if data.next_client_id != 1 || data.next_task_id != 3 { herr = Some("upgrade payload lost its counters".to_string()); }
+                        compare(&snap.state, &data.state, "upgrade", snap, &mut f, &mut th);
+                    }
+                },
+            }
+            if objects >= 3 { nontrivial = true; }
+        }
+        World::uninstall();
+        for (p, n) in &f.compared { probes.insert(format!("path_compared/{p}"), *n); }
+        let mut violations = Vec::new();
+        for ((class, key), (paths, detail)) in f.by_key {
+            // a failure that shows on the in-memory path is not an encoding problem: one key whatever else failed
+            let p: Vec<&str> = paths.into_iter().collect();
+            let suffix = if p.contains(&"requests") { "any_path".to_string() } else { format!("paths={}", p.join("+")) };
+            violations.push(Violation::new(&class, format!("{key}|{suffix}"), detail));
+        }
+        Out { violations, hash: th.0, probes, nontrivial, herr }
+    });
+    let _ = std::fs::remove_dir_all(&dir);
+    out
+}
+
 impl Property for C05 {
     fn id(&self) -> &'static str { "C05" }
-    fn runs(&self, _tier: Tier) -> u64 { 0 }
-    fn gen_plan(&self, _seed: u64, _tier: Tier) -> Value { Value::Null }
-    fn run_plan(&self, _plan: &Value) -> RunReport { RunReport { harness_error: Some("not implemented".into()), ..Default::default() } }
-    fn descr(&self) -> Descr { Descr { level: "exploration", rule: "", assumptions: vec![], real: vec![], stub: vec![], not_covered: vec![] } }
+    fn runs(&self, tier: Tier) -> u64 { match tier { Tier::Quick => 20_000, Tier::Thorough => 1_000_000 } }
+    fn gen_plan(&self, seed: u64, tier: Tier) -> Value { generate(seed, tier) }
+    fn run_plan(&self, plan: &Value) -> RunReport {
+        let ops = match cfggen::ops_from_value(&plan["ops"]) { Ok(o) => o, Err(e) => return RunReport { harness_error: Some(format!("bad plan: {e}")), ..Default::default() } };
+        let mut snaps: Vec<usize> = plan["snaps"].as_array().map(|a| a.iter().filter_map(|x| x.as_u64()).map(|x| x as usize).collect()).unwrap_or_default();
+        // after shrinking the history may be shorter than the snapshot indices: always snapshot the end
+        snaps.retain(|s| *s >= 1 && *s <= ops.len());
+        if !snaps.contains(&ops.len()) { snaps.push(ops.len()); }
+        let summary = format!("snaps@{:?} {}", snaps, cfggen::summarize_ops(&ops));
+        let o = run(ops, snaps, plan["enc_seed"].as_u64().unwrap_or(0), plan["dec_seed"].as_u64().unwrap_or(1), plan["real_files"].as_bool().unwrap_or(true));
+        let mut rep = RunReport { seed: plan["seed"].as_u64().unwrap_or(0), family: plan["family"].as_str().unwrap_or("").into(), violations: o.violations, trace_hash: o.hash, summary, ..Default::default() };
+        rep.nontrivial = o.nontrivial;
+        rep.probes = o.probes;
+        rep.harness_error = o.herr;
+        rep
+    }
+    fn shrink(&self, plan: &Value) -> Vec<Value> {
+        let mut out: Vec<Value> = Vec::new();
+        // fewer snapshots first
+        if let Some(s) = plan["snaps"].as_array() { if s.len() > 1 { for i in 0..s.len() { let mut p = plan.clone(); let mut t = s.clone(); t.remove(i); p["snaps"] = Value::Array(t); out.push(p); } } }
+        out.extend(cfggen::shrink_ops(&plan["ops"]).into_iter().map(|ops| { let mut p = plan.clone(); p["ops"] = ops; p }));
+        out
+    }
+    fn debug_plan(&self, plan: &Value) -> String {
+        let Ok(ops) = cfggen::ops_from_value(&plan["ops"]) else { return "bad plan".into() };
+        let mut st = ConfigState::new();
+        let mut s = String::new();
+        for (i, r) in ops.iter().enumerate() { s += &format!("#{i} {} -> {:?}\n", cfggen::verb_name(r), st.dispatch(r).map_err(|e| e.to_string())); }
+        s += &format!("final state: {st:#?}\n");
+        s
+    }
+    fn descr(&self) -> Descr {
+        Descr {
+            level: "exploration",
+            rule: "seeded command histories over every mutating ConfigState verb (swarm: alphabets, verb mix, optional-field density, record sizes, certificate density); 1-3 snapshots per history pushed through all four save/replay paths, encoded under one hash seed and replayed under another; a run is non-trivial when a snapshot with >=3 objects went through all paths; distinct = distinct (acceptance pattern, snapshot content, per-path outcome) hashes",
+            assumptions: vec!["release semantics (debug assertions off)", "`request_counts` is a census, not configuration", "an empty bucket equals an absent one; order inside a bucket is not configuration"],
+            real: vec!["ConfigState::{dispatch, produce_initial_state, write_requests_to_file, write_initial_state_to_file}", "parser::parse_several_requests + buffer::fixed::Buffer", "request::read_initial_state_from_file (prost)", "sozu::command::upgrade::UpgradeData serde round trip", "real files on disk (fsync) in a tenth of the runs, anonymous in-memory files (memfd) otherwise"],
+            stub: vec!["bin's private load_state loop (copied around the real parser/buffer)", "CommandHub::from_upgrade_data (takes `.state` verbatim; needs fds)", "clock", "entropy"],
+            not_covered: vec!["bootstrap through a really booted worker (clustersim)", "crash consistency of the state file (not claimed)"],
+        }
+    }
 }
